@@ -143,7 +143,7 @@ Fixpoint sequence {A} (l : list (option A)) : option (list A) :=
 
 Definition un_heads : list (string * unop) := [("NEG", UNeg); ("LOGNOT", ULogNot)].
 Definition bin_heads : list (string * binop) :=
-  [("ADD", BAdd); ("SUB", BSub); ("MUL", BMul); ("DIV", BDiv); ("MOD", BMod); ("LOGAND", BLogAnd); ("LOGOR", BLogOr);
+  [("ADD", BAdd); ("SUB", BSub); ("MUL", BMul); ("DIV", BDiv); ("MOD", BMod); ("SDIV", BSDiv); ("SMOD", BSMod); ("LOGAND", BLogAnd); ("LOGOR", BLogOr);
    ("LOGXOR", BLogXor); ("SHIFTL0", BShl0); ("SHIFTR0", BShr0); ("SHIFTRA", BShra)].
 Definition cmp_heads : list (string * cmpop) :=
   [("EQ", CEq); ("ULT", CUlt); ("ULE", CUle); ("UGT", CUgt); ("UGE", CUge); ("SLT", CSlt); ("SLE", CSle); ("SGT", CSgt); ("SGE", CSge)].
